@@ -1,1 +1,456 @@
-//! (reference model; owner fills this in)
+//! Independent model of the DVI machine (property C16).
+//!
+//! Two small things, both transcribed from the DVI description in *TeX: The Program* part 31
+//! (§583-§591) and from DVItype (§79-§99), and neither using the `dvi` crate:
+//!
+//! * [`Tracker`]: the register machine `(h, v, w, x, y, z)` + stack + current font `f`, which turns
+//!   a stream of operations into the list of *placed* characters and rules with their page
+//!   position and font. `set_char` advances `h` by the width of the character, which only the
+//!   font metric file knows; `h` is therefore an integer plus a *multiset* of unmeasured
+//!   `(char, font)` widths (addition commutes, so order does not matter).
+//! * [`frame`]: how a byte string splits into commands (length of every command by opcode), and
+//!   how it ends: cleanly, in the middle of a command, or at an undefined opcode.
+//!
+//! The monitor converts `dvi::Op` into the tiny [`TOp`] below; this file knows nothing about the
+//! crate under test.
+
+#[derive(Clone, Copy, Debug, PartialEq, Eq, Hash)]
+pub enum Reg {
+    W = 0,
+    X = 1,
+    Y = 2,
+    Z = 3,
+}
+
+/// The operations that matter for positions. Everything else (`xxx`, `fnt_def`, `pre`, `post`,
+/// `post_post`) is `Inert`: "it functions as a no-op" as far as registers go (§585, §588).
+#[derive(Clone, Debug, PartialEq, Eq, Hash)]
+pub enum TOp {
+    /// `set_char_i`, `set1..4`: typeset, then `h += width(c)`.
+    SetChar(u32),
+    /// `put1..4`: typeset, `h` unchanged.
+    PutChar(u32),
+    /// `set_rule`: typeset a rule of height `a`, width `b`, then `h += b` (even if `b <= 0`).
+    SetRule { height: i32, width: i32 },
+    /// `put_rule`: same without moving.
+    PutRule { height: i32, width: i32 },
+    Nop,
+    /// `bop`: `(h,v,w,x,y,z) := 0`, stack := empty, `f := undefined`.
+    Bop,
+    Eop,
+    Push,
+    Pop,
+    Right(i32),
+    Down(i32),
+    /// `w0`, `x0`, `y0`, `z0`: move by the register.
+    Move(Reg),
+    /// `w1..4` etc.: set the register to `b`, then move by `b`.
+    SetReg(Reg, i32),
+    /// `fnt_num_i`, `fnt1..4`.
+    Fnt(u32),
+    Inert,
+}
+
+/// Horizontal position: `int + Σ width(c, f)` over the multiset `sym`.
+#[derive(Clone, Debug, PartialEq, Eq, Hash, Default)]
+pub struct HPos {
+    pub int: i64,
+    /// Unmeasured widths, kept sorted so that equal multisets are equal vectors.
+    pub sym: Vec<(u32, Option<u32>)>,
+}
+
+impl HPos {
+    /// Evaluate under a concrete width assignment.
+    pub fn concrete(&self, width: &dyn Fn(u32, Option<u32>) -> i64) -> i64 {
+        let mut h = self.int;
+        for (c, f) in &self.sym {
+            h = h.wrapping_add(width(*c, *f));
+        }
+        h
+    }
+}
+
+#[derive(Clone, Debug, PartialEq, Eq, Hash)]
+pub enum PlacedKind {
+    Char(u32),
+    Rule { height: i32, width: i32 },
+}
+
+/// A typeset character or rule with the state it was typeset in.
+#[derive(Clone, Debug, PartialEq, Eq, Hash)]
+pub struct Placed {
+    pub kind: PlacedKind,
+    /// Number of `bop`s seen before this element (0 = before the first page).
+    pub page: u32,
+    pub h: HPos,
+    pub v: i64,
+    /// `None` = undefined (no `fnt` command yet on this page).
+    pub font: Option<u32>,
+    /// Index of the operation in the stream it came from.
+    pub op_index: usize,
+}
+
+#[derive(Clone, Debug, Default, PartialEq, Eq)]
+struct Frame {
+    h: HPos,
+    v: i64,
+    regs: [i64; 4],
+}
+
+#[derive(Clone, Debug, Default)]
+pub struct Stats {
+    pub pages: u32,
+    pub max_depth: usize,
+    /// `pop` with an empty stack.
+    pub pops_on_empty: u32,
+    /// `bop` that discarded a non-empty stack (push/pop unbalanced across a page boundary).
+    pub bops_discarding_stack: u32,
+    /// `bop` that zeroed a non-zero `w`, `x`, `y` or `z`.
+    pub bops_resetting_regs: u32,
+    /// `pop` that brought back a different value of `w`, `x`, `y` or `z`.
+    pub pops_restoring_regs: u32,
+    /// `w0`/`x0`/`y0`/`z0` with a non-zero register.
+    pub moves_nonzero: u32,
+    pub reg_ops: u32,
+    /// Some integer coordinate or register left the 32-bit range (wrap-around is unspecified).
+    pub left_i32: bool,
+    /// A coordinate came within 2 units of the 32-bit limits.
+    pub near_i32_limit: u32,
+}
+
+/// The register machine.
+#[derive(Clone, Debug, Default)]
+pub struct Tracker {
+    cur: Frame,
+    font: Option<u32>,
+    stack: Vec<Frame>,
+    index: usize,
+    pub stats: Stats,
+}
+
+fn in_i32(x: i64) -> bool {
+    x >= i32::MIN as i64 && x <= i32::MAX as i64
+}
+
+impl Tracker {
+    pub fn new() -> Tracker {
+        Tracker::default()
+    }
+    pub fn h(&self) -> &HPos {
+        &self.cur.h
+    }
+    pub fn v(&self) -> i64 {
+        self.cur.v
+    }
+    pub fn reg(&self, r: Reg) -> i64 {
+        self.cur.regs[r as usize]
+    }
+    pub fn font(&self) -> Option<u32> {
+        self.font
+    }
+    pub fn depth(&self) -> usize {
+        self.stack.len()
+    }
+
+    fn note(&mut self, x: i64) {
+        if !in_i32(x) {
+            self.stats.left_i32 = true;
+        } else if x >= i32::MAX as i64 - 2 || x <= i32::MIN as i64 + 2 {
+            self.stats.near_i32_limit += 1;
+        }
+    }
+
+    fn move_h(&mut self, d: i64) {
+        self.cur.h.int += d;
+        let x = self.cur.h.int;
+        self.note(x);
+    }
+
+    fn move_v(&mut self, d: i64) {
+        self.cur.v += d;
+        let x = self.cur.v;
+        self.note(x);
+    }
+
+    fn placed(&self, kind: PlacedKind) -> Placed {
+        Placed {
+            kind,
+            page: self.stats.pages,
+            h: self.cur.h.clone(),
+            v: self.cur.v,
+            font: self.font,
+            op_index: self.index,
+        }
+    }
+
+    /// Execute one operation; returns what it typeset, if anything.
+    pub fn step(&mut self, op: &TOp) -> Option<Placed> {
+        let out = match op {
+            TOp::SetChar(c) => {
+                let p = self.placed(PlacedKind::Char(*c));
+                // h := h + width(c in font f): unknown here, kept symbolically (§585 set_char).
+                let key = (*c, self.font);
+                let pos = self.cur.h.sym.partition_point(|k| *k <= key);
+                self.cur.h.sym.insert(pos, key);
+                Some(p)
+            }
+            TOp::PutChar(c) => Some(self.placed(PlacedKind::Char(*c))),
+            TOp::SetRule { height, width } => {
+                let p = self.placed(PlacedKind::Rule {
+                    height: *height,
+                    width: *width,
+                });
+                // "h := h + b" regardless of the sign of b (§585 set_rule).
+                self.move_h(*width as i64);
+                Some(p)
+            }
+            TOp::PutRule { height, width } => Some(self.placed(PlacedKind::Rule {
+                height: *height,
+                width: *width,
+            })),
+            TOp::Nop | TOp::Eop | TOp::Inert => None,
+            TOp::Bop => {
+                // §585 bop: "Set (h,v,w,x,y,z):=(0,0,0,0,0,0) and set the stack empty. Set the
+                // current font f to an undefined value."
+                if !self.stack.is_empty() {
+                    self.stats.bops_discarding_stack += 1;
+                }
+                if self.cur.regs.iter().any(|r| *r != 0) {
+                    self.stats.bops_resetting_regs += 1;
+                }
+                self.stack.clear();
+                self.cur = Frame::default();
+                self.font = None;
+                self.stats.pages += 1;
+                None
+            }
+            TOp::Push => {
+                // "Note that f is not pushed."
+                self.stack.push(self.cur.clone());
+                self.stats.max_depth = self.stats.max_depth.max(self.stack.len());
+                None
+            }
+            TOp::Pop => {
+                match self.stack.pop() {
+                    Some(fr) => {
+                        if fr.regs != self.cur.regs {
+                            self.stats.pops_restoring_regs += 1;
+                        }
+                        self.cur = fr;
+                    }
+                    // The standard leaves this undefined ("highly embarrassing"); DVItype §83
+                    // reports "(illegal at level zero)" and changes nothing. We do the same.
+                    None => self.stats.pops_on_empty += 1,
+                }
+                None
+            }
+            TOp::Right(b) => {
+                self.move_h(*b as i64);
+                None
+            }
+            TOp::Down(a) => {
+                self.move_v(*a as i64);
+                None
+            }
+            TOp::Move(r) => {
+                self.stats.reg_ops += 1;
+                let d = self.cur.regs[*r as usize];
+                if d != 0 {
+                    self.stats.moves_nonzero += 1;
+                }
+                match r {
+                    Reg::W | Reg::X => self.move_h(d),
+                    Reg::Y | Reg::Z => self.move_v(d),
+                }
+                None
+            }
+            TOp::SetReg(r, b) => {
+                self.stats.reg_ops += 1;
+                self.cur.regs[*r as usize] = *b as i64;
+                match r {
+                    Reg::W | Reg::X => self.move_h(*b as i64),
+                    Reg::Y | Reg::Z => self.move_v(*b as i64),
+                }
+                None
+            }
+            TOp::Fnt(k) => {
+                self.font = Some(*k);
+                None
+            }
+        };
+        self.index += 1;
+        out
+    }
+
+    /// Run a whole stream.
+    pub fn run(ops: &[TOp]) -> (Vec<Placed>, Tracker) {
+        let mut t = Tracker::new();
+        let mut out = vec![];
+        for op in ops {
+            if let Some(p) = t.step(op) {
+                out.push(p);
+            }
+        }
+        (out, t)
+    }
+}
+
+// ------------------------------------------------------------------------------------------
+// Framing: the length of every command (§585-§591).
+
+#[derive(Clone, Copy, Debug, PartialEq, Eq)]
+pub enum FrameEnd {
+    /// The bytes end exactly at a command boundary.
+    Complete,
+    /// The bytes end inside the command that starts at `at` with opcode `opcode`.
+    Truncated { opcode: u8, at: usize },
+    /// Opcodes 250-255 are undefined.
+    Invalid { opcode: u8, at: usize },
+}
+
+#[derive(Clone, Copy, Debug, PartialEq, Eq)]
+pub struct FrameInfo {
+    pub start: usize,
+    pub len: usize,
+    pub opcode: u8,
+}
+
+fn be(bytes: &[u8]) -> usize {
+    let mut n = 0usize;
+    for b in bytes {
+        n = (n << 8) | *b as usize;
+    }
+    n
+}
+
+/// Length of the command at the start of `b`, or `None` if `b` is too short to contain it.
+/// `b` is non-empty and `b[0] < 250`.
+fn command_len(b: &[u8]) -> Option<usize> {
+    let op = b[0];
+    let fixed = |n: usize| if b.len() >= n { Some(n) } else { None };
+    match op {
+        0..=127 => fixed(1),              // set_char_i
+        128..=131 => fixed(2 + (op - 128) as usize), // set1..4
+        132 | 137 => fixed(9),            // set_rule, put_rule: a[4] b[4]
+        133..=136 => fixed(2 + (op - 133) as usize), // put1..4
+        138 => fixed(1),                  // nop
+        139 => fixed(45),                 // bop c0[4]..c9[4] p[4]
+        140..=142 => fixed(1),            // eop push pop
+        143..=146 => fixed(2 + (op - 143) as usize), // right1..4
+        147 => fixed(1),                  // w0
+        148..=151 => fixed(2 + (op - 148) as usize),
+        152 => fixed(1),                  // x0
+        153..=156 => fixed(2 + (op - 153) as usize),
+        157..=160 => fixed(2 + (op - 157) as usize), // down1..4
+        161 => fixed(1),                  // y0
+        162..=165 => fixed(2 + (op - 162) as usize),
+        166 => fixed(1),                  // z0
+        167..=170 => fixed(2 + (op - 167) as usize),
+        171..=234 => fixed(1),            // fnt_num_i
+        235..=238 => fixed(2 + (op - 235) as usize), // fnt1..4
+        239..=242 => {
+            // xxx_k: k[n] x[k]
+            let n = 1 + (op - 239) as usize;
+            if b.len() < 1 + n {
+                return None;
+            }
+            let k = be(&b[1..1 + n]);
+            fixed(1 + n + k)
+        }
+        243..=246 => {
+            // fnt_def_k: k[n] c[4] s[4] d[4] a[1] l[1] n[a+l]
+            let n = 1 + (op - 243) as usize;
+            let head = 1 + n + 12 + 2;
+            if b.len() < head {
+                return None;
+            }
+            let a = b[head - 2] as usize;
+            let l = b[head - 1] as usize;
+            fixed(head + a + l)
+        }
+        247 => {
+            // pre i[1] num[4] den[4] mag[4] k[1] x[k]
+            let head = 1 + 1 + 12 + 1;
+            if b.len() < head {
+                return None;
+            }
+            fixed(head + b[head - 1] as usize)
+        }
+        248 => fixed(29), // post p[4] num[4] den[4] mag[4] l[4] u[4] s[2] t[2]
+        249 => {
+            // post_post q[4] i[1] followed by "four or more bytes that are all equal to 223";
+            // any number of them belongs to the command (§590).
+            if b.len() < 6 {
+                return None;
+            }
+            let mut n = 6;
+            while n < b.len() && b[n] == 223 {
+                n += 1;
+            }
+            Some(n)
+        }
+        250..=255 => unreachable!("caller filters undefined opcodes"),
+    }
+}
+
+/// Split a byte string into commands.
+pub fn frame(bytes: &[u8]) -> (Vec<FrameInfo>, FrameEnd) {
+    let mut out = vec![];
+    let mut at = 0usize;
+    while at < bytes.len() {
+        let op = bytes[at];
+        if op >= 250 {
+            return (out, FrameEnd::Invalid { opcode: op, at });
+        }
+        match command_len(&bytes[at..]) {
+            Some(len) => {
+                out.push(FrameInfo {
+                    start: at,
+                    len,
+                    opcode: op,
+                });
+                at += len;
+            }
+            None => return (out, FrameEnd::Truncated { opcode: op, at }),
+        }
+    }
+    (out, FrameEnd::Complete)
+}
+
+#[cfg(test)]
+mod tests {
+    use super::*;
+
+    #[test]
+    fn doc_example() {
+        // VarRemover's own documentation example: both streams place nothing, end at h = 3+5+5-...
+        let a = vec![
+            TOp::SetReg(Reg::X, 3),
+            TOp::Push,
+            TOp::SetReg(Reg::X, 5),
+            TOp::Move(Reg::X),
+            TOp::PutChar(1),
+            TOp::Pop,
+            TOp::Move(Reg::X),
+            TOp::PutChar(2),
+        ];
+        let (p, t) = Tracker::run(&a);
+        assert_eq!(p[0].h.int, 13);
+        assert_eq!(p[1].h.int, 6);
+        assert_eq!(t.reg(Reg::X), 3);
+    }
+
+    #[test]
+    fn framing() {
+        assert_eq!(frame(&[158, 1, 0, 68, 86, 73]).0.len(), 4);
+        assert_eq!(
+            frame(&[158, 1, 0, 255]).1,
+            FrameEnd::Invalid { opcode: 255, at: 3 }
+        );
+        assert_eq!(
+            frame(&[129, 1]).1,
+            FrameEnd::Truncated { opcode: 129, at: 0 }
+        );
+        assert_eq!(frame(&[249, 1, 0, 0, 0, 2, 223, 223, 223, 5]).0[0].len, 9);
+    }
+}
